@@ -2,18 +2,63 @@ from pyvc.contracts import contract
 from pyvc.shapes import *
 from specs.dwarf import StructsT
 
+from specs.cfiparse import pe_known, pe_val, pe_end, il_val, il_size, sized_word, fde_leaf, cie_leaf, cls_is, u32
+CFI_EXC = ["ELFParseError", "DWARFError", "OverflowError", "AssertionError", "KeyError"]
 EntryT = Obj('CIE', offset=Int, augmentation_dict=DictOf(U8), header=Rec(length=Nat, augmentation=Bytes))
 CFIT = Obj('CallFrameInfo', stream=Stream, size=Nat, address=Nat, for_eh_frame=Bool, base_structs=StructsT)
 
 
-@contract("elftools/dwarf/callframe.py", "CallFrameInfo._parse_entry_at", props=["C06"])
+EntryFull = Obj('CIE', offset=Int, augmentation_dict=DictOf(U8), header=Rec(length=Nat), structs=StructsT)
+# the entry cache is a representation field (only _parse_entry_at touches it); every cached entry is keyed by its offset
+CACHE_INV = ["forall(lambda k: not (k in self._entry_cache) or self._entry_cache[k].offset == k)"]
+CFIFull = Obj('CallFrameInfo', _inv=CACHE_INV, _rep=('_entry_cache',), stream=Stream, size=Nat, address=Nat, for_eh_frame=Bool,
+              base_structs=StructsT, _entry_cache=DictOf(EntryFull))
+C6_B = "self.stream.B"
+C6_W0 = "u32(%s, offset)" % C6_B
+C6_ILEN = "(12 if %s == 0xffffffff else 4)" % C6_W0
+C6_OSZ = "(8 if %s == 0xffffffff else 4)" % C6_W0
+C6_IDW = "sized_word(%s, offset + %s, %s)" % (C6_B, C6_ILEN, C6_OSZ)
+C6_IS_ZERO = "(self.for_eh_frame and %s == 0)" % C6_W0
+C6_IS_CIE = "((%s == 0) if self.for_eh_frame else ((%s != 0xffffffff and %s == 0xffffffff) or %s == 0xffffffffffffffff))" % (C6_IDW, C6_W0, C6_IDW, C6_IDW)
+C6_FRESH = "not (offset in old(self._entry_cache))"
+
+
+@contract("elftools/dwarf/callframe.py", "CallFrameInfo._parse_entry_at", props=["C06", "C10"])
 class parse_entry_at:
-    """(assumed at call sites; the entry parser is covered by the bounded differential of tasks/c06_cfi.py)"""
-    mode = 'assume'
-    returns = EntryT
-    ensures = ["result.offset == offset"]
-    modifies = ["self.stream.pos"]
-    may_raise = ["ELFParseError", "DWARFError", "OverflowError", "AssertionError", "KeyError"]
+    """the entry whose initial length starts at `offset`.  A cached entry is returned as is (and the stream advanced by
+    its size from where it stands).  Otherwise: .eh_frame and a zero first word: the terminator; else the format is
+    announced by the first word (7.4) and the identifier word that follows decides the kind (6.4.1: all ones of the
+    format's width -- 0 in .eh_frame -- is a CIE, anything else the CIE pointer of an FDE); a CIE carries the header
+    members of the layout (K2) and, in .eh_frame, its augmentation fields; an FDE is linked to the CIE its pointer
+    designates and has an LSDA pointer exactly when that CIE's augmentation gives an encoding other than omit; the
+    instructions run up to offset + length + size of the initial length; the entry is recorded in the cache"""
+    params = dict(self=CFIFull, offset=Nat)
+    modifies = ["self.stream.pos", "self._entry_cache"]
+    returns = EntryFull
+    ensures = ["result.offset == offset",
+               "@check @when %s :: cls_is(result, 'ZERO') == %s" % (C6_FRESH, C6_IS_ZERO),
+               "@check @when %s :: cls_is(result, 'CIE') == (not %s and %s)" % (C6_FRESH, C6_IS_ZERO, C6_IS_CIE),
+               "@check @when %s :: cls_is(result, 'FDE') == (not %s and not %s)" % (C6_FRESH, C6_IS_ZERO, C6_IS_CIE),
+               "@check @when %s and %s :: self.stream.pos == offset + 4" % (C6_FRESH, C6_IS_ZERO),
+               "@check @when %s and not %s :: final_end_offset == offset + result.header.length + %s" % (C6_FRESH, C6_IS_ZERO, C6_ILEN),
+               "@check @when %s and not %s :: result.structs.dwarf_format == (64 if %s == 0xffffffff else 32)"
+               " and result.structs.address_size == self.base_structs.address_size"
+               " and result.structs.little_endian == self.base_structs.little_endian" % (C6_FRESH, C6_IS_ZERO, C6_W0),
+               "@check @when %s and not %s :: offset in self._entry_cache and self._entry_cache[offset].offset == offset"
+               " and self._entry_cache[offset].header.length == result.header.length" % (C6_FRESH, C6_IS_ZERO)] + \
+              ["@check @when %s and not %s and %s :: result.header.%s == cie_leaf(%s, offset, self.for_eh_frame, '%s')" % (
+                  C6_FRESH, C6_IS_ZERO, C6_IS_CIE, f, C6_B, f)
+               for f in ('length', 'CIE_id', 'version', 'code_alignment_factor', 'data_alignment_factor')] + \
+              ["@check @when %s and not %s and not %s :: result.cie.offset == ((offset + %s - result.header.CIE_pointer)"
+               " if self.for_eh_frame else result.header.CIE_pointer)" % (C6_FRESH, C6_IS_ZERO, C6_IS_CIE, C6_ILEN),
+               "@check @when %s and not %s and not %s :: (result.lsda_pointer is None) == (final_lsda_encoding == 0xff)" % (
+                   C6_FRESH, C6_IS_ZERO, C6_IS_CIE),
+               "@check @when %s and not %s and not %s and not self.for_eh_frame :: len(result.augmentation_bytes) == 0" % (
+                   C6_FRESH, C6_IS_ZERO, C6_IS_CIE)]
+    ensures += ["@when not %s :: self.stream.pos == old(self.stream.pos) + old(self._entry_cache)[offset].header.length"
+                " + (4 if old(self._entry_cache)[offset].structs.dwarf_format == 32 else 12)" % C6_FRESH]
+    havoc_shapes = {"self._entry_cache": DictOf(EntryFull)}
+    may_raise = CFI_EXC
 
 
 @contract("elftools/dwarf/callframe.py", "CallFrameInfo._parse_cie_for_fde", props=["C06", "C10"])
@@ -51,7 +96,7 @@ class cfinstr_init:
     inline = True
 
 
-LAST = "instructions[len(instructions) - 1]"
+C6_LAST = "instructions[len(instructions) - 1]"
 
 
 @contract("elftools/dwarf/callframe.py", "CallFrameInfo._parse_instructions", props=["C06"])
@@ -67,10 +112,10 @@ class parse_instructions:
         ghost_init={"$off": "offset"}, ghost_update={"$off": "offset"}, ghost_step={"$o": "offset", "$n0": "len(instructions)"},
         invariant=["offset == $off", "offset >= 0"],
         shapes={"instructions": ListOf(Any)},
-        step=["known($B, $o)", "len(instructions) == $n0 + 1", LAST + ".opcode == op8($B, $o)",
-              "len(" + LAST + ".args) == nargs($B, $o)",
-              "nargs($B, $o) < 1 or " + LAST + ".args[0] == arg0($B, $o, $W, $S)",
-              "nargs($B, $o) < 2 or " + LAST + ".args[1] == arg1($B, $o, $W, $S)",
+        step=["known($B, $o)", "len(instructions) == $n0 + 1", C6_LAST + ".opcode == op8($B, $o)",
+              "len(" + C6_LAST + ".args) == nargs($B, $o)",
+              "nargs($B, $o) < 1 or " + C6_LAST + ".args[0] == arg0($B, $o, $W, $S)",
+              "nargs($B, $o) < 2 or " + C6_LAST + ".args[1] == arg1($B, $o, $W, $S)",
               "offset == next_off($B, $o, $W, $S)", "$o < end_offset"],
         variant="len($B) + 1 - offset")}
     ensures = []
@@ -78,9 +123,7 @@ class parse_instructions:
 
 
 # ---------------------------------------------------------------- .eh_frame pointer encodings, FDE header
-from specs.cfiparse import pe_known, pe_val, pe_end, il_val, il_size, sized_word, fde_leaf
 
-CFI_EXC = ["ELFParseError", "DWARFError", "OverflowError", "AssertionError", "KeyError"]
 
 
 @contract("elftools/dwarf/callframe.py", "CallFrameInfo._eh_encoding_to_field", props=["C06"])
@@ -104,9 +147,9 @@ class parse_lsda_pointer:
     may_raise = CFI_EXC
 
 
-FDE_LEAF = "sized_word"       # (documentation) .debug_frame FDE headers are the abstract Dwarf_FDE_header layout (K2)
-P1 = "(offset + il_size(self.stream.B, offset) + (4 if entry_structs.dwarf_format == 32 else 8))"
-ENC = "(final_cie.augmentation_dict['FDE_encoding'] if 'FDE_encoding' in final_cie.augmentation_dict else 0)"
+C6_FDE_LEAF = "sized_word"       # (documentation) .debug_frame FDE headers are the abstract Dwarf_FDE_header layout (K2)
+C6_P1 = "(offset + il_size(self.stream.B, offset) + (4 if entry_structs.dwarf_format == 32 else 8))"
+C6_ENC = "(final_cie.augmentation_dict['FDE_encoding'] if 'FDE_encoding' in final_cie.augmentation_dict else 0)"
 
 
 @contract("elftools/dwarf/callframe.py", "CallFrameInfo._parse_fde_header", props=["C06"])
@@ -121,13 +164,13 @@ class parse_fde_header:
     returns = Rec(length=Nat, CIE_pointer=Nat, initial_location=Int, address_range=Int)
     ensures = ["not self.for_eh_frame or result.length == il_val(self.stream.B, offset)",
                "not self.for_eh_frame or result.CIE_pointer == sized_word(self.stream.B, offset + il_size(self.stream.B, offset), 4 if entry_structs.dwarf_format == 32 else 8)",
-               "@check @when self.for_eh_frame :: %s != 0xff and pe_known(%s %% 16) and (%s // 16 == 0 or %s // 16 == 1)" % (ENC, ENC, ENC, ENC),
+               "@check @when self.for_eh_frame :: %s != 0xff and pe_known(%s %% 16) and (%s // 16 == 0 or %s // 16 == 1)" % (C6_ENC, C6_ENC, C6_ENC, C6_ENC),
                "@check @when self.for_eh_frame :: result.initial_location == pe_val(self.stream.B, %s, %s %% 16, entry_structs.address_size)"
-               " + ((self.address + %s) if %s // 16 == 1 else 0)" % (P1, ENC, P1, ENC),
+               " + ((self.address + %s) if %s // 16 == 1 else 0)" % (C6_P1, C6_ENC, C6_P1, C6_ENC),
                "@check @when self.for_eh_frame :: result.address_range == pe_val(self.stream.B, pe_end(self.stream.B, %s, %s %% 16, entry_structs.address_size),"
-               " %s %% 16, entry_structs.address_size)" % (P1, ENC, ENC),
+               " %s %% 16, entry_structs.address_size)" % (C6_P1, C6_ENC, C6_ENC),
                "@check @when self.for_eh_frame :: self.stream.pos == pe_end(self.stream.B, pe_end(self.stream.B, %s, %s %% 16, entry_structs.address_size),"
-               " %s %% 16, entry_structs.address_size)" % (P1, ENC, ENC),
+               " %s %% 16, entry_structs.address_size)" % (C6_P1, C6_ENC, C6_ENC),
                "@check @when self.for_eh_frame :: final_cie.offset == offset + il_size(self.stream.B, offset) - result.CIE_pointer"
                " or entry_structs.dwarf_format != (32 if il_size(self.stream.B, offset) == 4 else 64)"]
     ensures += ["self.for_eh_frame or result.%s == fde_leaf(self.stream.B, offset, '%s')" % (f, f)
@@ -152,8 +195,8 @@ class read_augmentation_data:
                "not self.for_eh_frame or self.stream.pos == min(len($B), UE($B, $p) + U($B, $p)) or self.stream.pos == UE($B, $p)"]
     may_raise = CFI_EXC
 
-AUGS = (b'', b'z', b'zR', b'zL', b'zLR', b'zRL', b'zPR', b'zPLR', b'zRS', b'zSLR', b'zRX', b'zXR', b'armcc+')
-ASZ = "entry_structs.address_size"
+C6_AUGS = (b'', b'z', b'zR', b'zL', b'zLR', b'zRL', b'zPR', b'zPLR', b'zRS', b'zSLR', b'zRX', b'zXR', b'armcc+')
+C6_ASZ = "entry_structs.address_size"
 
 
 def aug_clauses(aug):
@@ -163,7 +206,9 @@ def aug_clauses(aug):
     g = "header.augmentation != %r or " % aug
     if not aug or aug.startswith(b'armcc'):
         return [g + "(len(result[0]) == 0 and len(result[1]) == 0 and self.stream.pos == $p)"]
-    out = [g + "result[0] == $B[UE($B, $p) : UE($B, $p) + U($B, $p)]", g + "result[1]['length'] == U($B, $p)"]
+    # (.debug_frame: the same fields are decoded, the raw bytes are not returned)
+    out = [g + "((not self.for_eh_frame and len(result[0]) == 0) or (self.for_eh_frame and result[0] == $B[UE($B, $p) : UE($B, $p) + U($B, $p)]))",
+           g + "result[1]['length'] == U($B, $p)"]
     pos = "UE($B, $p)"
     keys = {'length'}
     for ch in aug[1:].decode():
@@ -177,9 +222,9 @@ def aug_clauses(aug):
             keys.add('FDE_encoding')
         elif ch == 'P':
             out.append(g + "result[1]['personality'].encoding == op8($B, %s)" % pos)
-            out.append(g + "result[1]['personality'].function == pe_val($B, %s + 1, op8($B, %s) %% 16, %s)" % (pos, pos, ASZ))
+            out.append(g + "result[1]['personality'].function == pe_val($B, %s + 1, op8($B, %s) %% 16, %s)" % (pos, pos, C6_ASZ))
             out.append(g + "pe_known(op8($B, %s) %% 16)" % pos)
-            pos = "pe_end($B, %s + 1, op8($B, %s) %% 16, %s)" % (pos, pos, ASZ)
+            pos = "pe_end($B, %s + 1, op8($B, %s) %% 16, %s)" % (pos, pos, C6_ASZ)
             keys.add('personality')
         elif ch == 'S':
             continue
@@ -195,14 +240,20 @@ def aug_clauses(aug):
 class parse_cie_augmentation:
     """the augmentation data of an .eh_frame CIE for each augmentation string of the property's quantifier (and strings
     with an unknown letter, the armcc strings, the empty string): raw bytes and the decoded fields, see aug_clauses"""
-    params = dict(self=CFIT, header=Rec(augmentation=OneOf(*AUGS)), entry_structs=StructsT)
-    requires = ["self.for_eh_frame"]
+    params = dict(self=CFIT, header=Rec(augmentation=OneOf(*C6_AUGS)), entry_structs=StructsT)
     modifies = ["self.stream.pos"]
+    returns = TupleT(Bytes, DictOf(U8))          # (call sites see the two encoding bytes; the personality record only here)
     ghost = {"$p": "self.stream.pos", "$B": "self.stream.B"}
-    ensures = [c for a in AUGS for c in aug_clauses(a)]
+    ensures = [c for a in C6_AUGS for c in aug_clauses(a)]
     may_raise = CFI_EXC
 
 
 @contract("elftools/common/utils.py", "iterbytes", props=["C06"])
 class iterbytes_c:
     inline = True
+
+
+for _q in ("CFIEntry.__init__", "FDE.__init__", "ZERO.__init__"):
+    @contract("elftools/dwarf/callframe.py", _q, props=["C06", "C10"])
+    class _inl_entry:
+        inline = True
